@@ -32,8 +32,10 @@ def run(chk, repo):
             size = e - s
             chk.require(size.is_const() and size.value() == 360, "C16-V1", f"volume_directory_record.{name}",
                         f"{name} is 360 bytes", f"{name} is {size} bytes, the format's record is 360", key=f"size:{name}")
+    # every surfacing volume-directory field is text: only the text adapter's semantics matter here
     for key in sorted(adapters_used(leaves)):
-        check_adapter(chk, "C16-V1", repo, L.ev, key)
+        if key[1] == "PaddedString":
+            check_adapter(chk, "C16-V1", repo, L.ev, key)
     from ..shapes_rules import link_tables
     link_tables(chk, repo, L, "C16")
     from .common_rules import parse_and_transform, to_dict_contract
